@@ -1838,7 +1838,6 @@ R16_FIXED = [
 def r16_streams(ctx, hists):
     """oracle on every history; the results obtained INSIDE the history are compared with the model's
     history function (`runOpsRat`, driver line `hist`) on the same fills and calls"""
-    drv = core.Driver(DRIVER)
     lines, recs = [], []
     for h in hists:
         ctx.count(('doWF.reuse', json.dumps(h, sort_keys=True)), True)
@@ -1867,7 +1866,7 @@ def r16_streams(ctx, hists):
                                                                     rs(c['N']), rs(c['Es'])) for c, _ in records))
             recs.append(records)
     try:
-        out = drv.ask(lines)
+        out = core.Driver(DRIVER).ask(lines)
     except core.Infra as e:
         if not ctx.broken:
             raise
